@@ -127,6 +127,16 @@ PROPS["C09"] = {
                     "the 'stays selected' clause is claimed for installs after which every record of number n (selection, last good, booting) matches the artifact in place: not for a signature that fails under the configured key (C07), nor for a server that re-issues number n with different bytes while an older record of n is still last good / booting"],
 }
 
+PROPS["C03"] = {
+    "modules": ["C03"], "required_theorems": ["C03_holds", "step03_enter", "step03_success", "step03_unsettled", "step03_noenter"], "monitors": ["C03"],
+    "fields": ["ret", "pj", "pd", "sj"],
+    "campaign": camp([("lifecycle", 500), ("rollback", 400), ("mixed", 300), ("damage", 200), ("chaos", 200)],
+                     [("lifecycle", 8000), ("rollback", 6000), ("mixed", 4000), ("damage", 3000), ("chaos", 3000), ("signing", 3000), ("release", 2000)]),
+    "assumptions": ["InitKey: every effective initialisation of a history configures the same public key",
+                    "SameBytes: the server does not re-issue the number of the current last good patch with different bytes (re-installing that number rewrites its artifact with what was downloaded)",
+                    "the last good patch is tracked from a success report after which every record of its number matches the artifact in place; outside damage to it or to the state files ends the tracking (as the property says)"],
+}
+
 # Properties whose theorems are still being written: monitors + correspondence only (not in MANIFEST).
 for _p, _mon, _camp in [
     ("C01", ["C01"], camp(LIFE_Q, LIFE_T)), ("C03", ["C03"], camp(LIFE_Q, LIFE_T)), ("C05", ["C05"], camp(LIFE_Q, LIFE_T)),
